@@ -134,6 +134,24 @@ func c05Shapes(c *chk.Ctx, rng interface{ Intn(int) int }) []*spec.Spec {
 		s.Run = spec.Run{Mode: "runto", Targets: []string{"last"}}
 		out = append(out, s)
 	}
+	// a parameter source nobody consumes (drained by the sink's parameter port) beside a slow file branch
+	for _, n := range []int{2, 5} {
+		s := mk(fmt.Sprintf("danglingparam%d", n), n)
+		s.Procs = append(s.Procs, &spec.Proc{Name: "ps", Kind: spec.KParamSource, Values: []string{"a", "b", "c"}})
+		s.Procs = append(s.Procs, &spec.Proc{Name: "slow", Kind: spec.KCmd, Cmd: spec.BuildCmd("slow", in, o1, nil, nil, map[string]string{"sleep": "90"})})
+		s.Conns = append(s.Conns, &spec.Conn{From: "src.out", To: "slow.in"})
+		out = append(out, s)
+	}
+	// RunTo whose cut goes through one file connection and one parameter connection
+	{
+		s := mk("runtocut", 4)
+		s.Procs = append(s.Procs, &spec.Proc{Name: "ps", Kind: spec.KParamSource, Values: []string{"k1", "k2", "k3", "k4"}})
+		s.Procs = append(s.Procs, &spec.Proc{Name: "mid", Kind: spec.KCmd, Cmd: spec.BuildCmd("mid", in, o1, nil, nil, map[string]string{"sleep": "80"})})
+		s.Procs = append(s.Procs, &spec.Proc{Name: "beyond", Kind: spec.KCmd, Cmd: spec.BuildCmd("beyond", in, o1, []string{"k"}, nil, nil)})
+		s.Conns = append(s.Conns, &spec.Conn{From: "src.out", To: "mid.in"}, &spec.Conn{From: "mid.out", To: "beyond.in"}, &spec.Conn{From: "ps.out", To: "beyond.k", Param: true})
+		s.Run = spec.Run{Mode: "runto", Targets: []string{"mid", "ps"}}
+		out = append(out, s)
+	}
 	// issue #81 diamond: more tasks per process than buffer slots
 	for _, n := range []int{4, 9} {
 		s := mk(fmt.Sprintf("diamond81_%d", n), n)
